@@ -6,6 +6,9 @@ package main
 
 import (
 	"fmt"
+	"os"
+	"path/filepath"
+	"sort"
 	"strings"
 
 	"github.com/bitcoin-sv/block-headers-service/transports/p2p"
@@ -101,7 +104,7 @@ func runC18(c *Ctx) error {
 	rng := lib.Rng(c.Seed, "c18")
 	c.R.Rule = "peers: seeded histories of add(in|out|pers, host, version-known)/done/ban/clock/addbad/shutdown/dump over 5 hosts in 3 groups (three hosts share a /16, one is RFC1918) (styles mix, fill = persistent peers up to MaxPeers, accident = peers without version/id 0) and 30 hosts x 7 groups (wide), each executed on the real handlers with real peer.Peer objects after a real version handshake over an in-memory connection, compared per op with the Lean model; non-trivial = at least one refusal for per-host limit, total limit or ban. " +
 		"connmgr lock-step: seeded scripts of dial ok/fail/address error/Disconnect/Remove/cancel on the real ConnManager (target 0..8, 1 ms retry, with and without BanAddress), counts compared with the Lean counter machine after every event; non-trivial = at least one failure and one disconnect. " +
-		"connmgr free-running: real interleavings, oracle only."
+		"connmgr free-running: real interleavings, oracle only. The witnesses of the two repaired defects (corpus/C18: 25 refusals of one address with BanAddress; outbound peer answered with two version messages) run first."
 	l := c.lean()
 	defer l.Close()
 
@@ -143,6 +146,41 @@ func runC18(c *Ctx) error {
 		c.R.KnownReplayed[k.ID] = st
 	}
 
+	// corpus first: the witnesses of the repaired defects R-C18 and R-C18-b are ordinary
+	// regression cases (a `fixed` entry of KNOWN_FINDINGS.json suppresses nothing)
+	files, _ := filepath.Glob("/verif/corpus/C18/*.ops")
+	sort.Strings(files)
+	for _, f := range files {
+		b, err := os.ReadFile(f)
+		if err != nil {
+			return err
+		}
+		var ops []string
+		for _, ln := range strings.Split(string(b), "\n") {
+			ln = strings.TrimSpace(ln)
+			if ln != "" && !strings.HasPrefix(ln, "#") {
+				ops = append(ops, ln)
+			}
+		}
+		if err := c18RunOps(c, l, "corpus/"+filepath.Base(f), ops); err != nil {
+			return err
+		}
+		c.R.Count("corpus", 1)
+	}
+	// the R-C18 witness once more on a free-standing manager, watched for 300 retry intervals:
+	// it must keep a request in flight after the ban
+	{
+		silent, line, err := c18SilenceAfterBan(c18WitnessOps())
+		if err != nil {
+			return err
+		}
+		c.R.OracleChecked++
+		if silent {
+			c.R.Fail(lib.Failure{Case: "conn/witness-R-C18", Ops: c18WitnessOps(), What: "with BanAddress configured the connection manager stops dialling for a slot after banning an address",
+				Expected: "established + in flight = 1", Observed: line, Signature: c18SigSlotLost})
+		}
+	}
+
 	// (a) peers
 	type plan struct {
 		style string
@@ -165,12 +203,6 @@ func runC18(c *Ctx) error {
 	if err := c18RealTimeBan(c); err != nil {
 		return err
 	}
-	// the theorem's assumption "one add per peer object, fresh id" against the real peer code
-	if err := c18RunOps(c, l, "double-version", []string{"scenario double-version: outbound peer, remote answers with version, version"}); err != nil {
-		return err
-	}
-	c.R.Count("peers:scenario:double-version", 1)
-
 	// (b) connection manager, lock-step
 	type cplan struct {
 		style string
@@ -181,11 +213,6 @@ func runC18(c *Ctx) error {
 	if c.Thorough {
 		cplans = []cplan{{"noban", 600, 150}, {"ban", 600, 100}, {"cancel", 400, 60}, {"banheavy", 800, 30}}
 	}
-	// the witness itself, through the same engine (Failure with the specific signature while the defect is there)
-	if _, err := c18Lockstep(c, l, c18WitnessOps(), "conn/witness-R-C18"); err != nil {
-		return err
-	}
-	c.R.Count("conn:history:witness", 1)
 	for _, p := range cplans {
 		for i := 0; i < p.count; i++ {
 			ops := c18GenConnHistory(rng, p.n, p.style)
